@@ -16,7 +16,7 @@ class InfoFiles:
             for info_file in self.fs.list_files_in_dir(info_dir):
                 basename = os.path.basename(info_file)
                 if (not basename.endswith('.trashinfo')
-                        or basename == '.trashinfo'):
+                        or basename[:-len('.trashinfo')] in ('', '.', '..')):
                     yield ('non_trashinfo', info_file)
                 else:
                     yield ('trashinfo', info_file)
